@@ -228,7 +228,7 @@ pub struct RunSummary {
 
 pub fn eval_in_subprocess(case: &Case, tmp: &str) -> Option<RunSummary> {
     std::fs::write(tmp, serde_json::to_string(case).ok()?).ok()?;
-    let exe = std::env::current_exe().ok()?;
+    let exe = crate::driver::exe_for(case)?;
     let out = std::process::Command::new(exe).arg("runcase").arg(tmp).output().ok()?;
     let text = String::from_utf8_lossy(&out.stdout).to_string();
     let mut violations: Vec<Violation> = vec![];
